@@ -152,6 +152,8 @@ func init() {
 			ex.sh.mu.Lock()
 			ex.sh.covers[tag]++
 			ex.sh.mu.Unlock()
+			cv, _ := ex.extra["covers"].([]string)
+			ex.extra["covers"] = append(cv, tag)
 			return nil
 		},
 		"vTag": func(ex *Exec, fr *frame, a []value) value {
